@@ -708,6 +708,7 @@ func acceptFeature(m *Model, err error) string {
 
 func runC08(c *eng.Ctx) {
 	cr := &caseRunner{c: c, prop: "C08"}
+	defer func() { RunLateRegistration(c, cr.next) }()
 	exec := func(idx int, s *Spec, m *Model, kind string) {
 		r := NewRun(s, m, nil, nil)
 		r.Build()
